@@ -473,9 +473,6 @@ def check_cpu(ctx, res, W):
                 for lk in ["unset", "0", "-3", "1", "5", "64", "abc"]:
                     for ph in [None, 0, 1, 8, 16]:
                         combos.append((oc, aff, cg, lk, ph))
-    if not ctx.thorough:
-        rng = ctx.rng("cpu-mock")
-        combos = rng.sample(combos, 2500)
     rows = W.run(dict(kind="cpu_mock", combos=combos))
     for (oc, aff, cg, lk, ph), (g0, g1) in zip(combos, rows):
         cgm = None if cg is None or cg[1] == "max" else [cg[1], cg[2]]
@@ -502,9 +499,7 @@ def check_cpu(ctx, res, W):
 
 
 def eff_rows(ctx, host_cpus):
-    cs = list(range(1, 33))
-    if not ctx.thorough:
-        cs = [1, 2, 3, 4, 5, 7, 8, 15, 16, 17, 31, 32]
+    cs = list(range(1, 33))  # the whole grid in both tiers (about 10 s on 12 worker processes)
     rows = []
     for c in cs:
         modes = (["env"] if c <= host_cpus else []) + (["mock"] if (c > host_cpus or c % 4 == 1) else [])
